@@ -3,6 +3,7 @@ package vanguard
 import (
 	"bytes"
 	"net/http"
+	"strconv"
 )
 
 // pickScript forks over backend behaviours. kind:
@@ -66,17 +67,23 @@ type bareBackend struct {
 	status     int
 	calls      int
 	declareLen bool // the error page declares its Content-Length (as net/http and proxies do)
+	jsonBody   bool // the error page is a JSON document without any RPC error code ("{}")
 }
 
 func (b *bareBackend) ServeHTTP(w http.ResponseWriter, r *http.Request) {
 	b.calls++
 	readAllSized(r.Body, 16, 100)
+	body := []byte("oops")
 	w.Header().Set("Content-Type", "text/plain")
+	if b.jsonBody {
+		body = []byte("{}")
+		w.Header().Set("Content-Type", "application/json")
+	}
 	if b.declareLen {
-		w.Header().Set("Content-Length", "4")
+		w.Header().Set("Content-Length", strconv.Itoa(len(body)))
 	}
 	w.WriteHeader(b.status)
-	w.Write([]byte("oops"))
+	w.Write(body)
 }
 
 // hC03Pipe: whatever the backend does, the client gets a response that is valid in its own protocol
@@ -105,7 +112,7 @@ func hC03Pipe() {
 	reqMsgs := []wireMsg{{abstract: []byte{'q'}}} // the request side is fixed here (C01/C02 vary it)
 	var bare *bareBackend
 	if kind == 4 {
-		bare = &bareBackend{status: bareStatuses[verifChoose("status", len(bareStatuses))], declareLen: verifChoose("declareLen", 2) == 1}
+		bare = &bareBackend{status: bareStatuses[verifChoose("status", len(bareStatuses))], declareLen: verifChoose("declareLen", 2) == 1, jsonBody: verifChoose("jsonErrorPage", 2) == 1}
 		p.tr.methods[pipePath].handler = bare
 	}
 	overLimitCalls := 0
@@ -204,5 +211,35 @@ func hC03Pipe() {
 		} else {
 			verifAssert(connectCodeU32(want) == out.code, "C04: bare HTTP status maps to the published RPC code")
 		}
+	}
+}
+
+// hC03UnaryCount: a unary method whose enveloped backend (gRPC, gRPC-Web) answers with two response messages and
+// an OK status. A client without envelopes (Connect unary, REST) must not get the two messages run together as
+// one successful response body.
+func hC03UnaryCount() {
+	cfg := &pipeCfg{maxMsg: 64, kind: fkUnary}
+	cfg.client = []int{cfConnectUnary, cfREST}[verifChoose("client", 2)]
+	cfg.svcProtos = []Protocol{[]Protocol{ProtocolGRPC, ProtocolGRPCWeb}[verifChoose("target", 2)]}
+	cfg.clientCodec = CodecJSON
+	cfg.svcCodecs = []string{[]string{CodecJSON, CodecProto}[verifChoose("backendCodec", 2)]}
+	p := newPipe(cfg)
+	if !p.buildOK {
+		return
+	}
+	m1 := wireMsg{abstract: nondetBytes("m1", 1)}
+	m2 := wireMsg{abstract: nondetBytes("m2", 1)}
+	p.backend.script = &respScript{msgs: []wireMsg{m1, m2}}
+	p.serve([]wireMsg{{abstract: []byte{'q'}}})
+	out := refParseClientResponse(cfg, p.sink, p.backend.rec.calls > 0)
+	verifObsInt("status", int64(p.sink.status))
+	verifObsBytes("client-body", p.sink.body)
+	verifObsInt("client-code", int64(out.code))
+	verifReach("two-response-messages-for-a-unary-method")
+	verifAssert(p.backend.rec.calls == 1, "the call is dispatched")
+	verifAssert(!(out.valid && out.code == 0), "C03: a unary call whose backend sent two response messages is not reported as a success")
+	if p.sink.status == 200 {
+		one := bytesEq(p.sink.body, refToyEncode(true, m1.abstract)) || bytesEq(p.sink.body, refToyEncode(true, m2.abstract))
+		verifAssert(one, "C03: a unary client is not handed two response messages run together as one body")
 	}
 }
